@@ -283,12 +283,16 @@ def check(ctx):
                         e["items"][-1]["nr"] += 1
                         kinds_hit["lifecycle_field"] += 1
                         return True
-            elif kind == 1:          # the last lifecycle frame is lost -> something missing or stale
-                for i in range(len(evs) - 1, -1, -1):
-                    if evs[i]["ev"] == "lcs":
-                        del evs[i]
-                        kinds_hit["lifecycle_frame_dropped"] += 1
-                        return True
+            elif kind == 1:          # every entry of one listed lifecycle is lost (frames that become empty are deleted) -> missing
+                ids = [r["id"] for r in evs[0]["hdr"]["final"]]
+                if ids:
+                    victim = max(ids)
+                    for e in evs:
+                        if e["ev"] == "lcs":
+                            e["items"] = [r for r in e["items"] if r["id"] != victim]
+                    evs[:] = [e for e in evs if not (e["ev"] == "lcs" and not e["items"])]
+                    kinds_hit["lifecycle_entries_dropped"] += 1
+                    return True
             elif kind == 2:          # the last FileInfo count one lower -> decreasing / wrong final count
                 fis = [i for i, e in enumerate(evs) if e["ev"] == "fi"]
                 if fis:
